@@ -135,8 +135,10 @@ func TestVerifC09filter(t *testing.T) {
 						rp := c.Choose(L, "reload-before-step")
 						addSecond := c.Choose(2, "reload-adds-unrelated-url") == 1
 						newDefault := "pol"
-						if explicit && c.Choose(2, "reload-changes-defaultPolicyRef") == 1 {
-							newDefault = "other" // the /limited rule and its policy stay exactly the same
+						if c.Choose(2, "reload-changes-defaultPolicyRef") == 1 {
+							// explicit: the /limited rule and its policy stay exactly the same (state must be kept);
+							// otherwise the rule follows the default: its effective policy CHANGES to "other" (7 per period)
+							newDefault = "other"
 						}
 						runHist := func(reloadAt int) []c09fObs {
 							f := c09fNew(c09fSpec(limit, timeout, false, explicit, "pol"))
@@ -203,7 +205,16 @@ func TestVerifC09filter(t *testing.T) {
 							}
 							c.AddOutcome(fmt.Sprintf("%s%d", o.result, o.wait/c09fP))
 						}
-						if rp > 0 {
+						if rp > 0 && !explicit && newDefault == "other" {
+							// the update changes the policy of the rule: from the update on the new policy (7 per period,
+							// more than the requests that follow) governs, nothing is limited or delayed any more
+							with := runHist(rp)
+							for i := rp; i < len(with); i++ {
+								if steps[i].url == "/limited" && (with[i].result != "" || with[i].wait != 0) {
+									c.Failf("filter:update-of-the-effective-policy-not-applied", "limit %d timeout %s: history %v; the update before step %d switches defaultPolicyRef to a policy with 7 permits per period, yet step %d got %+v", limit, timeout, steps, rp+1, i+1, with[i])
+								}
+							}
+						} else if rp > 0 {
 							with := runHist(rp)
 							for i := range base {
 								if base[i] != with[i] {
